@@ -430,3 +430,11 @@ def _derive_composites():
             elif any(o in sel for o in ex) and all(w is None for w in ex.values()):
                 ex[comp] = None
 _derive_composites()
+
+# ---- bag model (wave 10 neutral cure: two pushes per iteration, sort + dedup = set of elements, exact integer division) ----
+_EUL_OLD = '        let edges_in_connected_subgraph = subgraph_id.contains_edges();\n        let mut vertices: HashSet<u8> = HashSet::default();\n\n        let mut num_edges = 0;\n        for edge in edges_in_connected_subgraph {\n            vertices.insert(self.topology[edge].left);\n            vertices.insert(self.topology[edge].right);\n            num_edges += 1;\n        }\n\n        let num_vertices = vertices.len();\n        1 + num_edges - num_vertices'
+mut("N: distinct endpoints by sort + dedup of a pushed Vec", [(PRE, _EUL_OLD, '        let mut endpoints: Vec<u8> = Vec::new();\n        for edge in subgraph_id.contains_edges() {\n            endpoints.push(self.topology[edge].left);\n            endpoints.push(self.topology[edge].right);\n        }\n        let num_edges = endpoints.len() / 2;\n        endpoints.sort_unstable();\n        endpoints.dedup();\n        let num_vertices = endpoints.len();\n        1 + num_edges - num_vertices')], C03=None, C05=None, C07=None)
+mut("C03 bag: left endpoint pushed twice", [(PRE, _EUL_OLD, '        let mut endpoints: Vec<u8> = Vec::new();\n        for edge in subgraph_id.contains_edges() {\n            endpoints.push(self.topology[edge].left);\n            endpoints.push(self.topology[edge].left);\n        }\n        let num_edges = endpoints.len() / 2;\n        endpoints.sort_unstable();\n        endpoints.dedup();\n        let num_vertices = endpoints.len();\n        1 + num_edges - num_vertices')], C03="C03-f")
+mut("C03 bag: dedup without sorting first", [(PRE, _EUL_OLD, '        let mut endpoints: Vec<u8> = Vec::new();\n        for edge in subgraph_id.contains_edges() {\n            endpoints.push(self.topology[edge].left);\n            endpoints.push(self.topology[edge].right);\n        }\n        let num_edges = endpoints.len() / 2;\n        \n        endpoints.dedup();\n        let num_vertices = endpoints.len();\n        1 + num_edges - num_vertices')], C03="C03-f")
+mut("C03 bag: edge count = len / 3", [(PRE, _EUL_OLD, '        let mut endpoints: Vec<u8> = Vec::new();\n        for edge in subgraph_id.contains_edges() {\n            endpoints.push(self.topology[edge].left);\n            endpoints.push(self.topology[edge].right);\n        }\n        let num_edges = endpoints.len() / 3;\n        endpoints.sort_unstable();\n        endpoints.dedup();\n        let num_vertices = endpoints.len();\n        1 + num_edges - num_vertices')], C03="C03-f")
+mut("C03 bag: dedup forgotten", [(PRE, _EUL_OLD, '        let mut endpoints: Vec<u8> = Vec::new();\n        for edge in subgraph_id.contains_edges() {\n            endpoints.push(self.topology[edge].left);\n            endpoints.push(self.topology[edge].right);\n        }\n        let num_edges = endpoints.len() / 2;\n        endpoints.sort_unstable();\n        \n        let num_vertices = endpoints.len();\n        1 + num_edges - num_vertices')], C03="C03-f")
